@@ -283,6 +283,9 @@ def symlen(x):
     sh = getattr(x, "_shape", None)          # BaseReader
     if isinstance(sh, tuple) and sh and isinstance(sh[0], SInt):
         return sh[0]
+    sl = getattr(type(x), "symbolic_len", None)          # shape-only stand-ins
+    if sl is not None:
+        return sl(x)
     return builtins.len(x)
 
 
